@@ -250,6 +250,7 @@ func compileClass(msg string) string {
 		{"out of range", "literal-checked-only-by-compiler"},
 		{"unsupported symbol kind: KindFunction", "function-name-used-as-value"},
 		{"undefined symbol", "undefined-symbol-found-only-by-compiler"},
+		{"type invalid", "unresolved-type-reaches-compiler"},
 		{"len()", "len-call-checked-only-by-compiler"},
 		{"of len", "len-call-checked-only-by-compiler"},
 	} {
